@@ -53,8 +53,60 @@ def group_ops(B):
         "ad": (("a",), lambda x: x.ad()),
         "wedge": (("a",), lambda x: x.to_Matrix()),
         "bracket": (("a", "a"), lambda x, y: (x * y).param),
+        "left_jacobian": (("a",), lambda x: x.left_jacobian()),
+        "right_jacobian": (("a",), lambda x: x.right_jacobian()),
+        "left_jacobian_inv": (("a",), lambda x: x.left_jacobian_inv()),
+        "right_jacobian_inv": (("a",), lambda x: x.right_jacobian_inv()),
+        "g_left_jacobian": (("g",), lambda X: X.left_jacobian()),
+        "g_right_jacobian": (("g",), lambda X: X.right_jacobian()),
     }
     return {k: v for k, v in ops.items() if B.get(k) is not None}
+
+
+def check_history(res, B, elems, xs, case, sub, targets, preludes, tol=1e-11):
+    """N6: the result of an operation on an element object does not depend on which other operations were called on that object before
+    (lazily cached or silently rewritten per-object state).  For every element, every target op and every prelude op (same argument
+    kind): fresh object, prelude(obj), target(obj) must equal the symbolic-path target at the ORIGINAL parameters."""
+    G, A = B.G, B.G.algebra
+    ops = group_ops(B)
+
+    def mk(kind, p):
+        return G.elem(ca.DM(p)) if kind == "g" else A.elem(ca.DM(p))
+
+    for t in targets:
+        if t not in ops or len(ops[t][0]) != 1:
+            continue
+        kind, ft = ops[t][0][0], ops[t][1]
+        pool = elems if kind == "g" else xs
+        for p in pool:
+            want = None
+            for pre in preludes:
+                if pre == t or pre not in ops:
+                    continue
+                kp, fp = ops[pre]
+                if kp[0] != kind:
+                    continue
+                res.count("evaluations")
+                res.count("history_pairs")
+                obj = mk(kind, p)
+                try:
+                    with contextlib.redirect_stdout(io.StringIO()):
+                        if len(kp) == 1:
+                            fp(obj)
+                        else:
+                            fp(obj, obj)
+                        got = ev(ft(obj))
+                except NotImplementedError:
+                    continue
+                except Exception as ex:
+                    res.fail(site="%s.%s" % (B.name, t), clause="numeric_api:call_raises", cls=type(ex).__name__, detail=dict(x=np.asarray(p), after=pre, error=str(ex)[:200]), sub=sub, case=case)
+                    continue
+                if want is None:
+                    want = B.call(t, p)
+                ok, err = _same(got.reshape(want.shape) if got.size == want.size else got, want, tol)
+                if not ok:
+                    res.fail(site="%s.%s" % (B.name, t), clause="numeric_api:result_independent_of_earlier_calls_on_object", cls="after_" + pre,
+                             detail=dict(x=np.asarray(p), after=pre, got=got, want=want, err=err), sub=sub, case=case)
 
 
 def check_group(res, B, elems, xs, case, sub, ops_wanted, tol=1e-11):
